@@ -214,7 +214,7 @@ impl World {
             let mut walkers: Vec<_> = (0..nw).map(|_| chain.walk()).collect();
             let mut cursors = vec![0usize; nw];
             let mut last_dir = vec![0i8; nw];
-            let mut pending: Option<Violation> = None;
+            let mut pending: Option<(bool, String)> = None;
             let mut hits: Vec<&'static str> = Vec::new();
             for (w, op) in r.script.iter().take(256) {
                 let w = *w as usize;
@@ -300,7 +300,8 @@ impl World {
                     }
                 }
                 if let Some(msg) = bad {
-                    pending = Some(Violation { prop: "C17", class: "walker", step: self.step, msg });
+                    let positional = msg.contains("returned a position that is not");
+                    pending = Some((positional, msg));
                     break;
                 }
             }
@@ -308,10 +309,13 @@ impl World {
             for h in hits {
                 self.stats.hit(h);
             }
-            if let Some(v) = pending {
+            if let Some((positional, msg)) = pending {
                 if self.on(C17) {
-                    return Err(v);
+                    return Err(self.fail(C17, "walker", msg));
                 }
+                // (not reported under C04: a wrong position may come from the walker's cursor
+                // logic rather than from un-make, and C04 would then be blamed while it holds)
+                let _ = positional;
             }
         }
         for p in r.prints.iter().take(8) {
